@@ -76,11 +76,53 @@ class Desurvey(Scenario):
             return "ok"
 
 
+class MatchValues(Scenario):
+    """utils.match_values / merge_arrays on an *unsorted* head array: pairs must point at the caller's positions"""
+    pid = "C18"
+
+    def body(self, cx):
+        from geoh5py.shared.utils import match_values, merge_arrays
+        n, m = self.params["n"], self.params["m"]
+        tol = 0.5
+        with self.engine(cx) as X:
+            a = [cx.real(f"a{i}") for i in range(n)]
+            b = [cx.real(f"b{j}") for j in range(m)]
+            A = mk_array(X, a, (n,), "float64")
+            B = mk_array(X, b, (m,), "float64")
+            close = lambda x, y: And(x - y < tol, y - x < tol)       # noqa: E731
+            pairs = match_values(A, B, collocation_distance=tol)
+            pe = elems(pairs)
+            k = shape(pairs)[0]
+            cx.prove(k == 0 or shape(pairs)[1] == 2, "pairs are (head index, query index) rows", "match_values")
+            for r in range(k):
+                i, j = pe[2 * r], pe[2 * r + 1]
+                cx.prove(And(i >= 0, i < n, j >= 0, j < m, close(select(a, i), select(b, j))),
+                         f"pair {r}: head[i] and query[j] are within the collocation distance", "match_values")
+            for j in range(m):
+                has = Or([close(a[i], b[j]) for i in range(n)])
+                listed = Or([eq(pe[2 * r + 1], j) for r in range(k)])
+                cx.prove(Implies(has, listed), f"query {j} with a head value within tolerance is matched", "match_values")
+            merged, mapping = merge_arrays(mk_array(X, a, (n,), "float64"), mk_array(X, b, (m,), "float64"),
+                                           collocation_distance=tol, return_mapping=True)
+            me = elems(merged)
+            cx.prove(len(me) >= n and And([eq(me[i], a[i]) for i in range(n)]), "no head value changes (A->B)", "merge_arrays")
+            for j in range(m):
+                survives = Or([eq(x, b[j]) for x in me[n:]])
+                near = Or([close(a[i], b[j]) for i in range(n)])
+                cx.prove(Or(survives, near), f"tail value {j} survives or lies within tolerance of a head value", "merge_arrays")
+            for x in me[n:]:
+                cx.prove(And([Not(close(a[i], x)) for i in range(n)]), "appended values are not collocated with a head value",
+                         "merge_arrays")
+            cx.observe("pairs", pe)
+            return "ok"
+
+
 def scenarios(tier, seed):
     if tier == "quick":
-        return [Desurvey(rows=1, queries=2), Desurvey(rows=2, queries=1), Desurvey(rows=2, queries=2)]
+        return [Desurvey(rows=1, queries=2), Desurvey(rows=2, queries=1), Desurvey(rows=2, queries=2),
+                MatchValues(n=3, m=1), MatchValues(n=2, m=2)]
     return [Desurvey(rows=1, queries=2), Desurvey(rows=2, queries=2), Desurvey(rows=3, queries=1),
-            Desurvey(rows=3, queries=2), Desurvey(rows=4, queries=1)]
+            MatchValues(n=3, m=2), MatchValues(n=4, m=1), MatchValues(n=2, m=3), MatchValues(n=1, m=1)]
 
 
 def main(tier, seed):
@@ -96,8 +138,8 @@ def main(tier, seed):
         ],
         outside=["validate_depth_data / validate_interval_data / sort_depths (vertices and cells created for added data)",
                  "float32 rounding of stored surveys", "direction beyond the last station when the last leg has zero length",
-                 "more than 4 survey rows"],
-        bounds={"quick": "survey tables with 1-2 rows, 1-2 symbolic query depths", "thorough": "1-4 rows, 1-2 query depths"}[tier],
-        expected_outcomes={"Desurvey": {"ok"}},
-        timeout_ms=8000 if tier == "quick" else 60000,
+                 "more than 3 survey rows (z3 needs > 40 min on 4 rows: dropped from the thorough tier)"],
+        bounds={"quick": "survey tables with 1-2 rows, 1-2 symbolic query depths; match_values/merge_arrays with <=3 head and <=2 query values (any order)", "thorough": "1-3 rows, 1-2 query depths; match/merge with <=4 head, <=3 query values"}[tier],
+        expected_outcomes={"Desurvey": {"ok"}, "MatchValues": {"ok"}},
+        timeout_ms=8000 if tier == "quick" else 20000,
     )
